@@ -52,7 +52,11 @@ def _uv(c):
 
 def impl_compose(c):
     u, v = _uv(c)
-    w = U.compose_flows(u.unsqueeze(0), v.unsqueeze(0), align_corners=c["ac"])
+    # both documented call forms: `align_corners` by keyword and as the third positional argument
+    if c["seed"] % 2:
+        w = U.compose_flows(u.unsqueeze(0), v.unsqueeze(0), c["ac"])
+    else:
+        w = U.compose_flows(u.unsqueeze(0), v.unsqueeze(0), align_corners=c["ac"])
     return proto.flat(w[0])
 
 
@@ -146,14 +150,15 @@ def gen_affine(rng: random.Random, tier: str):
         Hu, hu = invariant_generator(rng, d, shape, ac)
         Hv, hv = invariant_generator(rng, d, shape, ac)
         yield {"d": d, "shape": shape, "ac": ac, "Hu": Hu, "hu": hu, "Hv": Hv, "hv": hv,
-               "dtype": rng.choice(["float32", "float64"])}
+               "dtype": rng.choice(["float32", "float64"]), "pos": rng.random() < 0.5}
 
 
 def check_affine(c):
     dt = torch.float32 if c["dtype"] == "float32" else torch.float64
     u = affine_field(c["Hu"], c["hu"], c["shape"], c["ac"], dt).unsqueeze(0)
     v = affine_field(c["Hv"], c["hv"], c["shape"], c["ac"], dt).unsqueeze(0)
-    w = U.compose_flows(u, v, align_corners=c["ac"])[0].double()
+    # both documented call forms: `align_corners` by keyword and as the third positional argument
+    w = (U.compose_flows(u, v, c["ac"]) if c.get("pos") else U.compose_flows(u, v, align_corners=c["ac"]))[0].double()
     x = lattice(c["shape"], c["ac"]).numpy()
     d = c["d"]
     Mu, Mv = np.eye(d) + np.array(c["Hu"]), np.eye(d) + np.array(c["Hv"])
